@@ -119,6 +119,12 @@ def seq_cmp_exec(rng, strict=False):
             if how == "refused": L.append("hpush %d %d" % (t, stok[0]))
             if how == "popped": L += ["hpush %d %d" % (t, it[0]), "hpush %d %d" % (t, it[1]), "hpop %d" % t, "hpop %d" % t]
             seqs.append(t); t += 1
+    # empty Arrays / Lists whose DECLARED element type is another one (made with one Float / String element that is popped again):
+    # an empty sequence equals every empty sequence and sorts below every non-empty one, whatever it was declared to hold
+    d, ftok = define("F", [fbits(1.5)], t); L += d; t += 1
+    for tok in (ftok[0], stok[0]):
+        for k in "AL":
+            L.append("V %d %s 1 %d" % (t, k, tok)); L.append("hpop %d" % t); seqs.append(t); t += 1
     trees = []
     for _ in range(8):
         n = rng.choice([0, 1, 2, 3])
